@@ -38,6 +38,11 @@ type Field struct {
 	// Context is for user provided data and is only used by the Resolvers,
 	// not this package.
 	Context interface{}
+
+	// sorted are the Args in the order of the arguments of the field
+	// definition with a nil for arguments not provided. Args is left as
+	// parsed so that resolving does not change the executable.
+	sorted []*ArgValue
 }
 
 // String representation of the instance.
@@ -128,9 +133,18 @@ func (f *Field) sortArgs() (errors []error) {
 						}
 					}
 				}
-				f.Args = args
+				f.sorted = args
 			}
 		}
 	}
 	return
+}
+
+// orderedArgs returns the arguments in field definition order if that order
+// could be determined and otherwise as parsed.
+func (f *Field) orderedArgs() []*ArgValue {
+	if f.sorted != nil {
+		return f.sorted
+	}
+	return f.Args
 }
